@@ -38,10 +38,40 @@ FORBIDDEN_I64_CALLS = re.compile(r'^core::num::<impl i64>::(wrapping_|overflowin
 CHECKED = re.compile(r'^core::num::<impl i64>::checked_')
 
 
+def _is_shl_filter_closure(F, body):
+    """body is a closure passed to Option::filter whose receiver is the result of i64::checked_shl."""
+    if '::{closure' not in body.fn:
+        return False
+    parent = F.bodies.get(body.fn.rsplit('::{closure', 1)[0])
+    if parent is None:
+        return False
+    du = Q.DefUse(parent)
+    for blk, t in Q.find_calls(parent, ['core::option::Option::<T>::filter']):
+        src = Q.value_source(parent, du, t['a'][0])
+        clo = du.origin(t['a'][1]) if len(t['a']) > 1 else {'k': '?'}
+        if src is not None and Q.callee_is(src, ['core::num::<impl i64>::checked_shl']) and \
+                clo['k'] == 'agg' and clo['rv'].get('def') == body.fn:
+            return True
+    return False
+
+
+def _callers_sink_result(F, fn):
+    """Every caller of helper `fn` (inside yash-arith) passes its result (through `?`) to unwrap_or_overflow."""
+    callers = F.callers_of(lambda names, t: fn in names)
+    if not callers:
+        return False
+    for b, blk, t in callers:
+        taint = Q.forward_taint(b, {t['dest']['l']}, through_calls=Q.PROPAGATING_CALLS)
+        if not Q.calls_with_tainted_arg(b, [EVAL + 'unwrap_or_overflow'], taint):
+            return False
+    return True
+
+
 @RS.rule('C03.R1', 'K-EFFECT', 'no unchecked arithmetic on i64 values in yash-arith; every checked_* None becomes an Overflow error')
 def r1(cx):
     F = cx.F
     n_ops = 0
+    allowed_seen = []
     for body in F.bodies_in(['yash_arith::']):
         cx.fn(body.fn)
         for b, j, s in body.stmts():
@@ -52,8 +82,10 @@ def r1(cx):
                 n_ops += 1
                 cx.site('%s: %s on i64 at %s' % (body.fn, rv['op'], body.loc(s)))
                 if rv['op'] in FORBIDDEN_BIN:
-                    if (body.fn, rv['op']) in ALLOWED_I64_OPS:
-                        # the allow-listed shift must stay inside a closure passed to Option::filter
+                    if rv['op'] == 'Shr' and _is_shl_filter_closure(F, body):
+                        # the one reviewed exception: the shift-back comparison inside `.filter(..)` on the Some result
+                        # of checked_shl(rhs) (rhs < 64 is established there; the comparison IS the overflow test)
+                        allowed_seen.append(body.fn)
                         continue
                     cx.violation(body.fn, 'i64:%s' % rv['op'], 'unchecked %s on i64 operands (wraps or panics instead '
                                  'of reporting an arithmetic error)' % rv['op'], loc=body.loc(s))
@@ -69,22 +101,7 @@ def r1(cx):
                     cx.site('%s: %s at %s' % (body.fn, n, body.loc(t)))
                     cx.violation(body.fn, 'call:%s' % n.split('::')[-1], 'non-checked i64 operation %s' % n, loc=body.loc(t))
     cx.floor(n_ops, 10, 'i64 binary operations inspected')
-    # the allow-listed closure really is the filter closure of checked_shl
-    for (fn, op), why in ALLOWED_I64_OPS.items():
-        parent = F.body(fn.rsplit('::{closure', 1)[0])
-        filt = [t for b, t in Q.find_calls(parent, ['core::option::Option::<T>::filter'])]
-        ok = False
-        du = Q.DefUse(parent)
-        for t in filt:
-            src = Q.value_source(parent, du, t['a'][0])
-            clo = du.origin(t['a'][1])
-            if src is not None and Q.callee_is(src, ['core::num::<impl i64>::checked_shl']) and \
-                    clo['k'] == 'agg' and clo['rv'].get('def') == fn:
-                ok = True
-        cx.site('allow-list %s %s: %s' % (fn, op, why))
-        if not ok:
-            cx.violation(fn, 'allowlist-broken:%s' % op, 'the allow-listed i64 %s is no longer the filter closure applied '
-                         'to checked_shl' % op, loc=parent.loc(parent.d))
+    cx.site('reviewed exception (Shr inside the filter closure of checked_shl): %s' % (allowed_seen or 'not present'))
     # every checked_* result reaches unwrap_or_overflow or a None => Overflow arm
     n_checked = 0
     for body in F.bodies_in(['yash_arith::eval::']):
@@ -94,10 +111,12 @@ def r1(cx):
                 continue
             n_checked += 1
             cx.site('%s: %s at %s' % (body.fn, pp.callee(t), body.loc(t)))
-            taint = Q.forward_taint(body, {t['dest']['l']}, through_calls=['core::option::Option::<T>::filter'])
+            taint = Q.forward_taint(body, {t['dest']['l']}, through_calls=['core::option::Option::<T>::filter'] + Q.PROPAGATING_CALLS)
             sinks = Q.calls_with_tainted_arg(body, [EVAL + 'unwrap_or_overflow'], taint)
             if sinks:
                 continue
+            if 0 in taint and _callers_sink_result(F, body.root):
+                continue          # a helper that hands the Option to its caller, which gives it to unwrap_or_overflow
             # match on the Option with a None arm constructing EvalError::Overflow
             ok = False
             for sb in body.live_blocks():
@@ -221,15 +240,19 @@ def r3(cx):
     pt = F.hir_of('yash_arith::ast::parse_tree')
     cx.fn('yash_arith::ast::parse_tree')
     ms = [m for m in H.matches_in(pt['body']) if 'Associativity' in (m.get('sty') or '')]
-    cx.require(len(ms) == 1, 'match on as_binary() result not found in parse_tree')
+    cx.require(len(ms) == 1, 'match on as_binary() result / associativity not found in parse_tree')
+    direct = (ms[0].get('sty') or '').lstrip('&').strip().endswith('ast::Associativity')
     for assoc, want in (('Left', 'plus1'), ('Right', 'same')):
-        val = ('variant', 'core::option::Option::Some',
-               [('tuple', [('any',), ('variant', 'yash_arith::ast::Associativity::' + assoc, [])])])
+        av = ('variant', 'yash_arith::ast::Associativity::' + assoc, [])
+        val = av if direct else ('variant', 'core::option::Option::Some', [('tuple', [('any',), av])])
         i, arm = H.first_matching_arm(ms[0], val)
-        cx.require(i is not None, 'arm for Some((_, %s)) not decidable: %s' % (assoc, arm))
+        cx.require(i is not None, 'arm for %s not decidable: %s' % (assoc, arm))
         body = H.peel(arm['body'])
-        cx.require(body.get('k') == 'tup' and len(body['a']) == 2, 'unexpected arm body shape in parse_tree')
-        rhs = H.peel(body['a'][1])
+        if direct:
+            rhs = body
+        else:
+            cx.require(body.get('k') == 'tup' and len(body['a']) == 2, 'unexpected arm body shape in parse_tree')
+            rhs = H.peel(body['a'][1])
         cx.site('parse_tree: %s => rhs precedence %s' % (assoc, 'precedence + 1' if rhs.get('k') == 'binary' else rhs.get('name')))
         cx.cellcount(1)
         if want == 'plus1':
@@ -303,8 +326,15 @@ def r4(cx):
                 for o in Q.rvalue_operands(s['rv']):
                     if o.get('cdef') == 'yash_arith::token::OPERATORS':
                         uses += 1
+        for i, t in b.calls():
+            for o in t['a']:
+                if o.get('cdef') == 'yash_arith::token::OPERATORS':
+                    uses += 1
         if Q.find_calls(b, [re.compile(r'Iterator.*::find$'), '*::Iterator::find']):
             cx.site('%s: first-hit search (Iterator::find)' % k)
+        if Q.find_calls(b, [re.compile(r'Iterator.*::(rfind|max_by_key|max_by|min_by_key|last|rev)$')]):
+            cx.violation(k, 'not-first-hit', 'the tokenizer no longer takes the FIRST entry of OPERATORS that matches (the table is ordered '
+                         'for first-hit search)', loc=b.loc(b.d))
     cx.require(uses >= 1, 'next_token does not read OPERATORS')
 
 
@@ -324,20 +354,30 @@ def r5(cx):
     # method used per arm
     want = {'Add': 'checked_add', 'Subtract': 'checked_sub', 'Multiply': 'checked_mul', 'Divide': 'checked_div',
             'Remainder': 'checked_rem', 'ShiftLeft': 'checked_shl', 'ShiftRight': 'checked_shr'}
+    def arm_callees(node):
+        """Short names of the callees in an arm, following yash_arith helpers one level (extracting an arm into a helper
+        function is a behaviour-preserving refactoring)."""
+        out = []
+        for c in H.calls(node):
+            d = c.get('def') or c.get('decl') or ''
+            out.append(H.short(d))
+            if d.startswith('yash_arith::') and d in F.hir and d not in (EVAL + 'unwrap_or_overflow',):
+                out.extend(H.short(c2.get('def') or c2.get('decl') or '') for c2 in H.calls(F.hir[d]['body']))
+        return out
     for v, meth in want.items():
         i, body = table[v]
-        names = [H.short(c.get('def') or c.get('decl') or '') for c in H.calls(body)]
+        names = arm_callees(body)
         cx.site('binary_result: %s -> %s' % (v, [n for n in names if n.startswith('checked_')]))
         if meth not in names:
             cx.violation(fn, 'method:%s' % v, '%s must be computed with i64::%s' % (v, meth), loc=loc)
     for v in ('Divide', 'Remainder'):
         i, body = table[v]
-        names = [H.short(c.get('def') or '') for c in H.calls(body)]
+        names = arm_callees(body)
         if 'require_non_zero' not in names:
             cx.violation(fn, 'no-zero-check:%s' % v, '%s does not test the divisor for zero' % v, loc=loc)
     for v in ('ShiftLeft', 'ShiftRight'):
         i, body = table[v]
-        names = [H.short(c.get('def') or '') for c in H.calls(body)]
+        names = arm_callees(body)
         if 'require_non_negative' not in names:
             cx.violation(fn, 'no-count-check:%s' % v, '%s does not reject negative or oversize shift counts' % v, loc=loc)
     # bit operators / comparisons: the HIR operator of each arm
@@ -391,21 +431,44 @@ def r6(cx):
     cx.require('rhs_ast' in by_arg and 'lhs_ast' in by_arg and 'result_ast' in by_arg, 'recursive calls of eval not recognised: %s' % list(by_arg))
     ne = [re.compile(r'PartialEq.*::ne$')]
     eq = [re.compile(r'PartialEq.*::eq$')]
-    n_guarded = 0
+
+    def lhs_is_zero_on(org, lab):
+        """Truth of `lhs == 0` on a dominating edge of a test of lhs against Value::Integer(0); None if not such a test."""
+        if org['k'] != 'call' or not Q.callee_is(org['t'], ne + eq):
+            return None
+        return (not lab[1]) if Q.callee_is(org['t'], ne) else lab[1]
+
+    def operator_after(blk):
+        """The BinaryOperator constant given to binary_result on the path that continues from blk (identifies the arm)."""
+        for cb, ct in Q.find_calls(body, [EVAL + 'binary_result']):
+            if body.dominates(blk, cb) and len(ct['a']) > 2:
+                org = du.origin(ct['a'][2])
+                if org['k'] == 'agg' and org['rv'].get('ak') == 'adt':
+                    return org['rv']['variant']
+                if org['k'] == 'const':
+                    c = str(org['o'].get('c') or '')
+                    for v in ('LogicalOr', 'LogicalAnd'):
+                        if v in c:
+                            return v
+        return None
+    guarded = {}
     for b, t in by_arg['rhs_ast']:
         conds = Q.dominating_conditions(F, body, du, b)
-        tests = [(org, lab) for org, lab, e in conds if org['k'] == 'call' and Q.callee_is(org['t'], ne + eq)]
-        if tests:
-            n_guarded += 1
-            org, lab = tests[-1]
-            is_ne = Q.callee_is(org['t'], ne)
-            # LogicalOr: rhs evaluated only if NOT (lhs != 0); LogicalAnd: only if NOT (lhs == 0)
-            if lab != ('bool', False):
-                cx.violation(body.fn, 'short-circuit-polarity', 'the right operand is evaluated on the edge where the result is already decided',
-                             loc=body.loc(t))
-    if n_guarded != 2:
-        cx.violation(body.fn, 'short-circuit-missing', 'expected the right operands of both || and && to be evaluated under a test of '
-                     'the left value; found %d guarded evaluations' % n_guarded, loc=body.loc(body.d))
+        zs = [lhs_is_zero_on(org, lab) for org, lab, e in conds]
+        zs = [z for z in zs if z is not None]
+        op = operator_after(b)
+        cx.site('eval: eval(rhs_ast) at %s in the %s arm, reached with lhs %s' % (body.loc(t), op, {True: '== 0', False: '!= 0'}.get(zs[-1]) if zs else 'untested'))
+        if op in ('LogicalOr', 'LogicalAnd'):
+            guarded[op] = zs[-1] if zs else None
+    for op, want_zero, sym in (('LogicalOr', True, '||'), ('LogicalAnd', False, '&&')):
+        if op not in guarded:
+            cx.violation(body.fn, 'short-circuit-missing:%s' % op, 'no dedicated evaluation of the right operand of %s was found' % sym, loc=body.loc(body.d))
+        elif guarded[op] is None:
+            cx.violation(body.fn, 'short-circuit-missing:%s' % op, 'the right operand of %s is evaluated without a test of the left value' % sym,
+                         loc=body.loc(body.d))
+        elif guarded[op] != want_zero:
+            cx.violation(body.fn, 'short-circuit-polarity:%s' % op, 'the right operand of %s is evaluated on the edge where the result is already '
+                         'decided (lhs %s 0)' % (sym, '==' if guarded[op] else '!='), loc=body.loc(body.d))
     # the early returns construct the constants 1 (for ||) and 0 (for &&)
     # ?: evaluates exactly one branch: a single eval(result_ast) whose argument is selected by a switch
     if len(by_arg['result_ast']) != 1 or 'then_ast' in by_arg or 'else_ast' in by_arg:
@@ -537,6 +600,12 @@ def r8(cx):
         cx.site('%s: %s x%d' % (fn, kind, len(locs)))
         cx.fn(fn)
         ok = PANIC_OK.get((fn, kind))
+        if ok is None:
+            # a construct moved verbatim into a helper nested in the reviewed function keeps its review
+            for (rfn, rkind), val in PANIC_OK.items():
+                base = rfn.split('::{closure')[0]
+                if rkind == kind and fn.startswith(base + '::'):
+                    ok = val
         if ok is None:
             cx.violation(fn, 'panic-site:%s' % kind, 'unreviewed panic-capable construct %s (%d site(s))' % (kind, len(locs)), loc=locs[0])
         elif len(locs) > ok[0]:
